@@ -78,7 +78,7 @@ func (kd *KerxData0) parseEnd(src []byte, tupleCount int) (int, error) {
 			if L, E := len(src), int(uint16(pair.Value))+2; L < E {
 				return 0, fmt.Errorf("EOF: expected length: %d, got %d", E, L)
 			}
-			kd.Pairs[i].Value = int16(binary.BigEndian.Uint16(src[pair.Value:]))
+			kd.Pairs[i].Value = int16(binary.BigEndian.Uint16(src[uint16(pair.Value):]))
 		}
 	}
 	return len(src), nil
